@@ -45,6 +45,7 @@ type interp struct {
 	funcsSeen   map[*ssa.Function]int
 	stubsSeen   map[string]int
 	emitsSeen   map[string]int
+	syncMaps    map[*value]*syncMapState
 	opaques     map[string]*opaque
 	killed      bool
 	mutexes     map[*value]*mutexState
